@@ -65,7 +65,6 @@ Definition run_procs (ps : list proc) (prio : list nat) (timeout : option Q) (cb
        jqs (rev (g_sleeps g));
        jq (g_now g);
        JL (map jwait (rev (g_waits g)));
-       jbool (spec_partition (length ps) (match cb with CbOk => true | _ => false end)
-                             gone alive (g_rc g) (g_cb g)) ].
+       jbool (spec_procs ps cb start timeout exc gone alive (g_rc g) (g_cb g) (g_now g)) ].
 
 Definition run_decode (st : Z) : jv := jres (decode_status st).
